@@ -65,6 +65,8 @@ mod remote_actor;
 
 pub mod macros;
 pub mod node;
+#[cfg(feature = "verif_hooks")]
+pub mod verif;
 
 /// Node's are representing by an integer id
 pub type NodeId = u64;
